@@ -146,7 +146,7 @@ def _form(rng, case):
   if plain and not case.get('nonfinite') and case['metric'] not in CE_METRICS:
     pds += ['float16', 'bfloat16', 'int32']   # (cross-entropy values in half precision are legitimately coarse)
   return {'arr': rng.choice(['jax', 'numpy']), 'tdtype': rng.choice(tds), 'pdtype': rng.choice(pds),
-          'ctor': rng.choice(['kw', 'pos']), 'extra': rng.random() < 0.3}
+          'ctor': rng.choice(['kw', 'pos']), 'extra': rng.random() < 0.25}
 
 
 def _one_case(rng, metric, c=None, length=None):
@@ -207,7 +207,7 @@ def _with_domain(rng, case):
 
 
 def generate(tier, rng):
-  per = {'quick': 110, 'thorough': 600, 'search': 900}.get(tier, 70)
+  per = {'quick': 85, 'thorough': 600, 'search': 900}.get(tier, 70)
   # structured corners first: k grid x ties for the top-k metrics, fully masked sequences
   for k in range(-7, 10):
     for c in (1, 2, 3, 5):
